@@ -162,10 +162,10 @@ for _pid, _pre in (("C03", "c03_typecompat_sound"), ("C04", "c04_typecompat_comp
               timeout=1500, mem_gb=10)
             for _r, _rows in ((0, "0-3"), (1, "4-7"), (2, "8-10"))
         ] + [
-            H(_pre + "_d4_r%d" % _r, "nitrogql-checker", CK + "common.rs", "checker/typecompat_h.rs", "verif_typecompat", ["common::check_type_compatibility"],
+            H(_pre + "_d4_s%d" % _r, "nitrogql-checker", CK + "common.rs", "checker/typecompat_h.rs", "verif_typecompat", ["common::check_type_compatibility"],
               "variable type: rows %s of the 19 well-formed wrapper nestings of depth <= 4; location type: all 19; symbolic selectors, names symbolic over {A, B}" % _rows,
-              tiers=("thorough",), timeout=3600, mem_gb=12)
-            for _r, _rows in ((0, "0-3"), (1, "4-7"), (2, "8-11"), (3, "12-15"), (4, "16-18"))
+              tiers=("thorough",), timeout=3600, mem_gb=20)
+            for _r, _rows in ((0, "0-3"), (1, "4-7"), (2, "8-9"), (3, "10-11"), (4, "12-13"), (5, "14-15"), (6, "16-17"), (7, "18"))
         ],
     }
 
